@@ -1130,6 +1130,12 @@ func (c *FuncCtx) atReturn(st *State, vals []Value) {
 			if en.Derived && vi == 0 {
 				continue
 			}
+			if vi == 0 {
+				if call, ok := stripParens(en.Expr).(*ast.CallExpr); ok && exprString(call.Fun) == "forall" && (len(en.By) > 0 || len(c.con.RowLoops) > 0) {
+					c.proveClause(st, "ensures", fmt.Sprintf("%d", i), en, vw.env, nil, lf)
+					continue
+				}
+			}
 			var facts []*Term
 			se := vw.env(&facts)
 			var by []*Term
@@ -1166,7 +1172,33 @@ func (c *FuncCtx) atReturn(st *State, vals []Value) {
 				continue
 			}
 			p := Var(c.freshName("p"), SInt)
-			g := Implies(outsideAll(p, rs, h), Eq(Select(cur, p), Select(old, p)))
+			ante := outsideAll(p, rs, h)
+			// cells inside an output row of a rowloop are assigned as well
+			for _, rl := range c.con.RowLoops {
+				j := Var(c.freshName(rl.Var), SInt)
+				var ff []*Term
+				env := c.specEnv(c.entry, &ff)
+				env.bound[rl.Var] = IntV{j}
+				lo, hi := env.Int(rl.Lo), env.Int(rl.Hi)
+				inSome := TFalse
+				for _, o := range rl.Out {
+					row := &ast.IndexExpr{X: &ast.SelectorExpr{X: o, Sel: ast.NewIdent("Coeffs")}, Index: ast.NewIdent(rl.Var)}
+					sl := env.slice(row)
+					if heapName(sl.Elem) == h {
+						inSome = Or(inSome, And(Le(sl.Addr, p), Lt(p, Add(sl.Addr, sl.Len))))
+					}
+				}
+				for _, a := range rl.Assigns {
+					var f2 []*Term
+					e2 := c.specEnv(c.entry, &f2)
+					sl := e2.slice(a)
+					if heapName(sl.Elem) == h {
+						ante = And(ante, Or(Lt(p, sl.Addr), Le(Add(sl.Addr, sl.Len), p)))
+					}
+				}
+				ante = And(ante, Forall([]*Term{j}, nil, Not(And(Le(lo, j), Lt(j, hi), inSome))))
+			}
+			g := Implies(ante, Eq(Select(cur, p), Select(old, p)))
 			// p is a fresh constant: proving the implication for it proves the universal statement
 			c.oblige(st, "frame", h, g, nil, afacts...).File = c.con.File
 		}
@@ -1185,7 +1217,7 @@ func conjuncts(t *Term) []*Term {
 // fresh constant with lo <= k < hi and the hints are evaluated with k bound to it, so they may
 // mention the element under consideration.
 func (c *FuncCtx) proveClause(st *State, kind, detail string, cl *Clause, mkEnv func(facts *[]*Term) *SpecEnv, at ast.Node, extra []*Term) {
-	if call, ok := stripParens(cl.Expr).(*ast.CallExpr); ok && exprString(call.Fun) == "forall" && len(call.Args) == 4 && len(cl.By) > 0 {
+	if call, ok := stripParens(cl.Expr).(*ast.CallExpr); ok && exprString(call.Fun) == "forall" && len(call.Args) == 4 {
 		if kid, ok := call.Args[0].(*ast.Ident); ok {
 			var facts []*Term
 			env := mkEnv(&facts)
@@ -1259,6 +1291,22 @@ func (c *FuncCtx) execRowLoop(fr *frame, n *ast.RangeStmt, rl *RowLoopSpec, ord 
 		se := c.specEnv(st, &facts)
 		lo, hi := se.Int(rl.Lo), se.Int(rl.Hi)
 		c.oblige(st, "rowloop-range", fmt.Sprintf("loop%d", ord), And(Eq(lo, ConstI(0)), Eq(hi, length)), n, facts...)
+	}
+	// frame of the code before the loop: it may write only what the function-level assigns clause names
+	{
+		var facts []*Term
+		se := c.specEnv(st, &facts)
+		se.inOld = true
+		rs := c.regions(se, c.con.Assigns)
+		for _, h := range sortedHeapNames(st.heaps) {
+			cur := st.heaps[h]
+			old := c.heap(c.entry, h)
+			if cur.Key() == old.Key() {
+				continue
+			}
+			p := Var(c.freshName("p"), SInt)
+			c.oblige(st, "frame-before-loop", fmt.Sprintf("loop%d.%s", ord, h), Implies(outsideAll(p, rs, h), Eq(Select(cur, p), Select(old, p))), n, facts...)
+		}
 	}
 	pre := st.clone()
 	body := st.clone()
@@ -1399,12 +1447,20 @@ func (c *FuncCtx) execRowLoop(fr *frame, n *ast.RangeStmt, rl *RowLoopSpec, ord 
 			se.scope = se.scope[:bodyDepth]
 		}
 		pi := 0
+		var cutFacts []*Term
+		for ci, cl := range rl.Cuts {
+			c.proveClause(se, "rowcut", fmt.Sprintf("loop%d.%d", ord, ci), cl, func(facts *[]*Term) *SpecEnv {
+				return c.specEnv(se, facts) // old() is the function entry, as everywhere else
+			}, n, cutFacts)
+			var facts []*Term
+			env := c.specEnv(se, &facts)
+			cutFacts = append(cutFacts, env.Bool(cl.Expr))
+			cutFacts = append(cutFacts, facts...)
+		}
 		for _, cl := range rl.Post {
 			c.proveClause(se, "rowpost", fmt.Sprintf("loop%d.%d", ord, pi), cl, func(facts *[]*Term) *SpecEnv {
-				env := c.specEnv(se, facts)
-				env.oldSt = pre
-				return env
-			}, n, nil)
+				return c.specEnv(se, facts)
+			}, n, cutFacts)
 			pi++
 		}
 		for _, v := range views {
@@ -1426,6 +1482,10 @@ func (c *FuncCtx) execRowLoop(fr *frame, n *ast.RangeStmt, rl *RowLoopSpec, ord 
 			s := env.slice(row)
 			rs = append(rs, region{heapName(s.Elem), s.Addr, Add(s.Addr, s.Len)})
 		}
+		for _, a := range rl.Assigns {
+			s := env.slice(a)
+			rs = append(rs, region{heapName(s.Elem), s.Addr, Add(s.Addr, s.Len)})
+		}
 		for _, h := range sortedHeapNames(se.heaps) {
 			cur := se.heaps[h]
 			old := c.heap(pre, h)
@@ -1444,14 +1504,49 @@ func (c *FuncCtx) execRowLoop(fr *frame, n *ast.RangeStmt, rl *RowLoopSpec, ord 
 	// postconditions are exported to callers as derived clauses, not re-assumed here)
 	after := pre
 	as := c.assignedIn(n.Body)
+	hs := map[string]bool{}
 	for h := range as.heaps {
-		c.heap(after, h)
-		after.heaps[h] = Var(c.freshName(h), SArr)
+		hs[h] = true
 	}
 	if as.calls {
-		for _, h := range sortedHeapNames(after.heaps) {
-			after.heaps[h] = Var(c.freshName(h), SArr)
+		for h := range after.heaps {
+			hs[h] = true
 		}
+	}
+	var hnames []string
+	for h := range hs {
+		hnames = append(hnames, h)
+	}
+	sort.Strings(hnames)
+	for _, h := range hnames {
+		oldH := c.heap(after, h)
+		nh := Var(c.freshName(h), SArr)
+		// frame of the whole loop: a cell outside every output row of the range is unchanged
+		p := Var(c.freshName("p"), SInt)
+		j := Var(c.freshName(rl.Var), SInt)
+		var ff []*Term
+		env := c.specEnv(pre, &ff)
+		env.bound[rl.Var] = IntV{j}
+		inSome := TFalse
+		for _, o := range rl.Out {
+			row := &ast.IndexExpr{X: &ast.SelectorExpr{X: o, Sel: ast.NewIdent("Coeffs")}, Index: ast.NewIdent(rl.Var)}
+			sl := env.slice(row)
+			if heapName(sl.Elem) != h {
+				continue
+			}
+			inSome = Or(inSome, And(Le(sl.Addr, p), Lt(p, Add(sl.Addr, sl.Len))))
+		}
+		for _, a := range rl.Assigns {
+			var f2 []*Term
+			e2 := c.specEnv(pre, &f2)
+			sl := e2.slice(a)
+			if heapName(sl.Elem) == h {
+				inSome = Or(inSome, And(Le(sl.Addr, p), Lt(p, Add(sl.Addr, sl.Len))))
+			}
+		}
+		exists := Not(Forall([]*Term{j}, nil, Not(And(Le(ConstI(0), j), Lt(j, length), inSome))))
+		after.assume(Forall([]*Term{p}, []*Term{Select(nh, p)}, Or(exists, Eq(Select(nh, p), Select(oldH, p)))))
+		after.heaps[h] = nh
 	}
 	if len(after.scope) > depth {
 		after.scope = after.scope[:depth]
